@@ -409,8 +409,12 @@ class DateProfiler(BaseProfiler):
     def __call__(self, column_data: List[Any]):
         self.profile.count = len(column_data)
         if hasattr(column_data[0], "value"):
-            column_data = numpy.array(
-                [v.value for v in column_data if v is not None], dtype="int64"
+            # pandas Timestamps: `.value` is epoch nanoseconds, the profile is kept in epoch seconds
+            column_data = (
+                numpy.array([v.value for v in column_data if v is not None], dtype="int64")
+                .astype("datetime64[ns]")
+                .astype("datetime64[s]")
+                .astype("int64")
             )
         else:
             column_data = numpy.array(column_data, dtype="datetime64[s]").astype("int64")
